@@ -16,6 +16,7 @@ def sim_spec(rng):
     c = z['countries'][0]
     c['hh'] = dict(c['hh'], portfolio=None, F0=None)
     c['cap'] = None
+    c['custom'] = None
     c['firm'] = {'form': 'fixed', 'margin': 0.0}
     spec['gifts'] = []
     return spec
